@@ -17,7 +17,7 @@ def selTable : List (Nat × Nat) := OG.Gen.C07.selector.map fun r => (r.1, r.2.1
 
 /-- `canPack(src, n, bits)`. -/
 def canPack (src : List Nat) (n bits : Nat) : Bool :=
-  if src.length < n then false
+  if (src.take n).length < n then false   -- `len(src) < n`, without walking the whole list
   else if bits = 0 then src.all (· == 1)
   else (src.take n).all (fun v => decide (v ≤ 2 ^ bits - 1))
 
